@@ -526,7 +526,9 @@ func recordHostPort(args []string) error {
 	dd := vh.NewDedup()
 	for i := 0; i < n; i++ {
 		var host string
-		if rng.IntN(4) == 0 {
+		if rng.IntN(40) == 0 { // length-scaled hosts
+			host = strings.Repeat(string(pool[rng.IntN(len(pool))]), runLengths[rng.IntN(len(runLengths))])
+		} else if rng.IntN(4) == 0 {
 			host = fixed[rng.IntN(len(fixed))]
 		} else {
 			var b strings.Builder
@@ -539,6 +541,9 @@ func recordHostPort(args []string) error {
 		hp := netutil.HostPort{Host: host, Port: uint16(port)}
 		text, _ := judgeHostPort(res, hp)
 		dd.Add([]byte(fmt.Sprintf("%s\x00%d", host, port)))
+		if len(host) > 200 {
+			continue // judged above; too long for the trace
+		}
 		e := ev{Host: tokensOf(host), Port: port, Text: tokensOf(text), Back: back{Host: []string{}}}
 		if _, panicked := vh.Try(func() {
 			b, err := netutil.ParseHostPort(text)
@@ -871,9 +876,17 @@ func edgeClass(input string, u *urlutil.URL, s0 string) string {
 	return ""
 }
 
+// quoteShort quotes s, cutting the middle out of long texts.
+func quoteShort(s string) string {
+	if len(s) <= 240 {
+		return fmt.Sprintf("%+q", s)
+	}
+	return fmt.Sprintf("%+q...(%d bytes)...%+q", s[:120], len(s), s[len(s)-60:])
+}
+
 // judgeURL checks the statement for one accepted URL and returns the trips.
 func judgeURL(res *vh.Result, input string, u *urlutil.URL) (s0 string, trips []trip) {
-	key := fmt.Sprintf("urlutil.Parse(%+q)", input)
+	key := fmt.Sprintf("urlutil.Parse(%s)", quoteShort(input))
 	if pv, panicked := vh.Try(func() { s0 = u.String() }); panicked {
 		res.Mismatch(key, fmt.Sprintf("String() panics: %v", pv), nil)
 		return "", nil
@@ -884,9 +897,9 @@ func judgeURL(res *vh.Result, input string, u *urlutil.URL) (s0 string, trips []
 		if t.err == nil && t.back == s0 {
 			continue
 		}
-		what := fmt.Sprintf("%s returns a URL whose String() is %+q, want %+q (encoded %+q)", t.name, t.back, s0, t.encoded)
+		what := fmt.Sprintf("%s returns a URL whose String() is %s, want %s (encoded %s)", t.name, quoteShort(t.back), quoteShort(s0), quoteShort(t.encoded))
 		if t.err != nil {
-			what = fmt.Sprintf("%s fails: %v (String() = %+q, encoded %+q)", t.name, t.err, s0, t.encoded)
+			what = fmt.Sprintf("%s fails: %s (String() = %s, %d bytes; encoded %s, %d bytes)", t.name, quoteShort(t.err.Error()), quoteShort(s0), len(s0), quoteShort(t.encoded), len(t.encoded))
 		}
 		detail := map[string]any{"input": input, "string": s0, "path": t.name, "encoded": t.encoded, "back": t.back}
 		if t.err != nil {
@@ -909,6 +922,30 @@ func judgeURL(res *vh.Result, input string, u *urlutil.URL) (s0 string, trips []
 // model's shapes do not contain ("#" is one of its shapes).
 var edgeInputs = []string{"//", "//#", "/%2F x", "s:/%2F<y"}
 
+// runLengths are the block concretisations of a run: k copies of what the
+// model holds once between the markers.
+var runLengths = []int{300, 700, 1500, 4000, 20000}
+
+// expandRuns repeats the tokens between "RUN[" and "]RUN" k times.
+func expandRuns(toks []string, k int) []string {
+	out := make([]string, 0, len(toks))
+	for i := 0; i < len(toks); i++ {
+		if toks[i] != "RUN[" {
+			out = append(out, toks[i])
+			continue
+		}
+		j := i + 1
+		for j < len(toks) && toks[j] != "]RUN" {
+			j++
+		}
+		for c := 0; c < k; c++ {
+			out = append(out, toks[i+1:j]...)
+		}
+		i = j
+	}
+	return out
+}
+
 func replayURL(args []string) error {
 	if len(args) != 2 {
 		return fmt.Errorf("usage: replay-url <vectors> <result>")
@@ -921,6 +958,7 @@ func replayURL(args []string) error {
 		Sp struct {
 			Comp string `json:"comp"`
 			Cls  string `json:"cls"`
+			Run  bool   `json:"run"`
 		} `json:"sp"`
 		Input  []string `json:"input"`
 		Accept bool     `json:"accept"`
@@ -933,12 +971,8 @@ func replayURL(args []string) error {
 	dd := vh.NewDedup()
 	keepText := &keeper{name: "urlutil.URL.MarshalText"}
 	keepJSON := &keeper{name: "json.Marshal(*urlutil.URL)"}
-	err = vh.ForEachVector(args[0], func(_ int, raw []byte) error {
-		var v vec
-		if err := json.Unmarshal(raw, &v); err != nil {
-			return err
-		}
-		n++
+	longest := 0
+	process := func(v vec) error {
 		input, err := urlJoin(v.Input)
 		if err != nil {
 			return err
@@ -963,10 +997,10 @@ func replayURL(args []string) error {
 		s0, trips := judgeURL(res, input, u)
 		evals += len(trips)
 		vh.Try(func() {
-			if b, err := u.MarshalText(); err == nil {
+			if b, err := u.MarshalText(); err == nil && len(b) < 2048 {
 				keepText.add(n, b) // retained uncopied across all later URLs
 			}
-			if b, err := json.Marshal(u); err == nil {
+			if b, err := json.Marshal(u); err == nil && len(b) < 2048 {
 				keepJSON.add(n, b)
 			}
 		})
@@ -989,6 +1023,30 @@ func replayURL(args []string) error {
 			res.Sample(map[string]any{"input": input, "string": s0, "json": jhtml})
 		}
 		return nil
+	}
+	err = vh.ForEachVector(args[0], func(_ int, raw []byte) error {
+		var v vec
+		if err := json.Unmarshal(raw, &v); err != nil {
+			return err
+		}
+		n++
+		if !v.Sp.Run {
+			return process(v)
+		}
+		// A run vector stands for a family: what is between the markers is repeated k times.
+		ks := runLengths
+		if vh.Tier() == "quick" && n%8 != 0 {
+			ks = runLengths[:len(runLengths)-1] // quick: the longest run for every eighth vector only
+		}
+		for _, k := range ks {
+			w := v
+			w.Input, w.Text, w.JHTML, w.JRaw = expandRuns(v.Input, k), expandRuns(v.Text, k), expandRuns(v.JHTML, k), expandRuns(v.JRaw, k)
+			longest = max(longest, len(w.JHTML))
+			if err := process(w); err != nil {
+				return err
+			}
+		}
+		return nil
 	})
 	if err != nil {
 		return err
@@ -1007,7 +1065,8 @@ func replayURL(args []string) error {
 		return err
 	}
 	return res.Close(map[string]any{"vectors": n, "accepted": accepted, "evaluations": evals, "distinct_nontrivial": dd.N(),
-		"model_diffs": md.n, "edge_class_failures": edgeCount, "retained_results": len(keepText.held) + len(keepJSON.held)})
+		"model_diffs": md.n, "edge_class_failures": edgeCount, "retained_results": len(keepText.held) + len(keepJSON.held),
+		"longest_json_tokens": longest})
 }
 
 func recordURL(args []string) error {
@@ -1030,8 +1089,20 @@ func recordURL(args []string) error {
 	special := []string{"\U000E0067", "\U000E007F", "\U000F0000", "\U0010FFFD", "\U0010FFFF", "\U0003FFFE", "\U0001F3F4", "\U0001F600",
 		"\u200B", "\uFEFF", "\u2029", "\u0085", "\u009F", "\uFFFE", "\uE000", "\u0378",
 		"&", "<", ">", `"`, `\`, " ", "\u00E9", "\u4E16", "\u2028", "\u2029", "%20", "%2F", "%26", "%3C", "%22", "%5C", "%C3%A9", "%e2%80%a8", "'", "+", "=", ";", "@", ":", "/", "?", "#", "%", "\x01", "\x7f", "\t", "{", "}", "|", "^", "`", "~", "[", "]", "*", "\U0001F600"}
+	runChars := []string{"&", "<", ">", `"`, `\`, "\u2028", "\u00e9", "a", "%26", " ", "\U0001F600", "'", "=", "\u2029"}
 	word := func(pSpecial float64, maxN int) string {
 		var b strings.Builder
+		if rng.IntN(30) == 0 { // length-scaled: a long run of one character, dense in what JSON inflates
+			k := runLengths[rng.IntN(len(runLengths)-1)]
+			if rng.IntN(12) == 0 {
+				k = runLengths[len(runLengths)-1]
+			}
+			c := pick(runChars)
+			if rng.IntN(3) == 0 {
+				return strings.Repeat(c+pick(runChars), k/2)
+			}
+			return strings.Repeat(c, k)
+		}
 		for k := 1 + rng.IntN(maxN); k > 0; k-- {
 			if rng.Float64() < pSpecial {
 				b.WriteString(pick(special))
@@ -1121,8 +1192,8 @@ func recordURL(args []string) error {
 		accepted++
 		dd.Add([]byte(input))
 		s0, trips := judgeURL(res, input, u)
-		if i >= nTrace || edgeClass(input, u, s0) != "" {
-			continue
+		if i >= nTrace || edgeClass(input, u, s0) != "" || len(s0) > 400 {
+			continue // long texts are judged here only; the trace keeps to texts TLC can hold
 		}
 		for _, t := range trips {
 			if !strings.HasPrefix(t.name, "json.Encoder") {
